@@ -1031,3 +1031,100 @@ func (c *Ctx) PAIR(rule string, pkgs ...string) []report.Obligation {
 	}
 	return out
 }
+
+// FanLimit (C13, C19): a limit set on an errgroup counts every function started on it, also the one that only
+// waits for the others (a coordinator / collector: a closure that receives from a channel). Wherever the module
+// calls SetLimit on a group on which the same function starts such a closure,
+//   - the limit has the form n + k with k at least the number of those closures (with a bare n the collector takes
+//     one of the n slots: at n = 1 no worker can ever start, and the caller blocks forever in Go);
+//   - the closure is started on every path that reaches Wait (a fast path that skips it leaves the slot reserved
+//     for it to a worker: n + 1 of them run at once).
+func (c *Ctx) FanLimit(rule string) []report.Obligation {
+	var out []report.Obligation
+	n := 0
+	receives := func(f *ssa.Function) bool {
+		if f == nil {
+			return false
+		}
+		for _, b := range f.Blocks {
+			for _, in := range b.Instrs {
+				switch x := in.(type) {
+				case *ssa.UnOp:
+					if x.Op == token.ARROW {
+						return true
+					}
+				case *ssa.Select:
+					for _, st := range x.States {
+						if st.Dir == types.RecvOnly {
+							return true
+						}
+					}
+				}
+			}
+		}
+		return false
+	}
+	for _, fn := range c.P.Funcs {
+		sls := callSites(fn, func(com *ssa.CallCommon) bool { return staticName(com) == errgroupSetLimit })
+		if len(sls) == 0 {
+			continue
+		}
+		for _, sl := range sls {
+			group := sl.Common().Args[0]
+			var consumers []spawn
+			for _, sp := range spawnsIn(fn) {
+				if sameCell(sp.Group, group) && receives(sp.Closure) {
+					consumers = append(consumers, sp)
+				}
+			}
+			if len(consumers) == 0 {
+				continue
+			}
+			n++
+			arg := sl.Common().Args[1]
+			extra := int64(0)
+			if bo, ok := arg.(*ssa.BinOp); ok && bo.Op == token.ADD {
+				if k, isC := constInt(bo.Y); isC {
+					extra = k
+				} else if k, isC := constInt(bo.X); isC {
+					extra = k
+				}
+			}
+			out = append(out, verdict(extra >= int64(len(consumers)), rule, c.P.FuncID(fn)+" :: the limit counts the closures that only wait", c.P.InstrPos(sl),
+				fmt.Sprintf("SetLimit(%s): %d slot(s) added for %d waiting closure(s) started on the same group", c.P.KeyTerm(arg, 3), extra, len(consumers)),
+				fmt.Sprintf("SetLimit(%s) adds %d slot(s) but %d closure(s) that only wait for the others are started on the same group: they occupy slots meant for workers (with a limit of 1 nothing can start and the caller blocks in Go forever)", c.P.KeyTerm(arg, 3), extra, len(consumers))))
+			for _, w := range callSites(fn, func(com *ssa.CallCommon) bool {
+				return staticName(com) == errgroupWait && len(com.Args) > 0 && sameCell(com.Args[0], group)
+			}) {
+				for _, sp := range consumers {
+					out = append(out, verdict(prog.InstrDominates(sp.In, w), rule, c.P.FuncID(fn)+" :: the waiting closure is started before every Wait", c.P.InstrPos(w),
+						"the closure the extra slot is reserved for is started on every path to this Wait", "a path reaches Wait without having started the closure the extra slot of the limit is reserved for: workers use that slot too, one more than the configured maximum run at once"))
+				}
+			}
+		}
+	}
+	out = append(out, report.Obligation{Rule: rule, Key: "inventory", Status: report.Discharged, Why: fmt.Sprintf("%d limited errgroups with a waiting closure", n)})
+	return out
+}
+
+// sameCell: the same SSA value, or two loads of the same local variable (a variable captured by a closure lives in
+// a cell and every use loads it).
+func sameCell(a, b ssa.Value) bool {
+	if a == b {
+		return a != nil
+	}
+	la, ok1 := a.(*ssa.UnOp)
+	lb, ok2 := b.(*ssa.UnOp)
+	if ok1 && ok2 && la.Op == token.MUL && lb.Op == token.MUL {
+		if al, isA := la.X.(*ssa.Alloc); isA && la.X == lb.X {
+			n := 0
+			for _, r := range *al.Referrers() {
+				if st, isSt := r.(*ssa.Store); isSt && st.Addr == ssa.Value(al) {
+					n++
+				}
+			}
+			return n == 1
+		}
+	}
+	return false
+}
